@@ -4,6 +4,7 @@
 -/
 import Pdlv.Lemmas.CxxAgree
 import Pdlv.Lemmas.CxxView
+import Pdlv.Lemmas.CxxChild
 import Pdlv.Lemmas.CxxSer
 
 namespace Pdlv
@@ -163,6 +164,64 @@ example :
     vwfBody (.root "P" items) = true ∧ decWfBody (.root "P" items) = true ∧
     (viewDecode { e := .little } (.root "P" items) [1, 7, 0x34, 0x12, 1, 0xaa]).isOk = true := by
   refine ⟨by decide, by decide, by rfl⟩
+
+/-- **C14, child views: everything the reference accepts is a valid view.**  For every child packet whose own fields and
+    whose ancestors' fields are in the class of the view theorem, no field called `payload`, every ancestor with a payload
+    (`Cxx.vwfChain`: decidable, evaluated per run), both byte orders and EVERY byte string: if the reference `decode_full` of the
+    child accepts the octets, then `RootView::Create(slice)` and the chain of `ChildView::Create(parent)` down to the child are
+    all valid and the child's getters return the reference's field values. -/
+theorem child_view_accepts_what_the_reference_accepts (c : Cfg) (nm : String) (parent : Body) (cs allCs : List (String × Nat))
+    (items : Items) (hw : vwfChain (.derived nm parent cs allCs items) = true) (bs : Bytes) (hb : bs.length < usizeMax) (v : Value)
+    (h : Pdlv.decodeFull { e := c.e, mode := .ideal } (.derived nm parent cs allCs items) bs = .ok v) :
+    viewDecode c (.derived nm parent cs allCs items) bs = .ok v := by
+  have hc := chain_ok c _ hw bs hb
+  simp only [Pdlv.decodeFull] at h
+  obtain ⟨⟨v', r⟩, hd, h2⟩ := bind_ok _ _ _ h
+  simp only at h2
+  split at h2
+  · rename_i hr
+    simp only [Outcome.ok.injEq] at h2
+    subst h2
+    simp only [viewDecode, hc.1 v' r hd hr, Outcome.bind]
+  · cases h2
+
+/-- **… and a valid child view is what the reference accepts, or an input whose only fault is a constraint.**  On the same
+    class: if the chain of views is valid with field values `v`, the reference either accepts the octets with exactly `v`, or
+    rejects them with `ConstraintValue` — the emitted `Parse` of a child view checks no constraint (KF-C14-child-constraint),
+    and that is the ONLY way in which it accepts more than the reference. -/
+theorem child_view_is_reference_or_constraint (c : Cfg) (nm : String) (parent : Body) (cs allCs : List (String × Nat))
+    (items : Items) (hw : vwfChain (.derived nm parent cs allCs items) = true) (bs : Bytes) (hb : bs.length < usizeMax) (v : Value)
+    (h : viewDecode c (.derived nm parent cs allCs items) bs = .ok v) :
+    Pdlv.decodeFull { e := c.e, mode := .ideal } (.derived nm parent cs allCs items) bs = .ok v ∨
+    Pdlv.decodeFull { e := c.e, mode := .ideal } (.derived nm parent cs allCs items) bs = .err .constraintValue := by
+  have hc := chain_ok c _ hw bs hb
+  simp only [viewDecode] at h
+  obtain ⟨⟨v', hz⟩, hvb, h2⟩ := bind_ok _ _ _ h
+  obtain ⟨rfl, href⟩ := hc.2.1 v' hz hvb
+  simp only [Outcome.ok.injEq] at h2
+  subst h2
+  rcases href with ⟨r, hr, hd⟩ | hcv
+  · left
+    have e : Py.ideal c = { e := c.e, mode := .ideal } := rfl
+    rw [e] at hd
+    simp only [Pdlv.decodeFull, hd, Outcome.bind, hr, ↓reduceIte]
+  · right
+    have e : Py.ideal c = { e := c.e, mode := .ideal } := rfl
+    rw [e] at hcv
+    simp only [Pdlv.decodeFull, hcv, Outcome.bind]
+
+/-- **KF-C14-child-constraint**, derived from the model: `packet R { k: 8, _payload_ }`, `packet C : R (k = 3) { x: 8 }` —
+    over `04 07` the chain of views is valid (`GetX()` = 7, `GetK()` would return the constant 3) although `k = 4`; the
+    reference rejects the octets with `ConstraintValue` -/
+theorem child_view_does_not_check_constraints :
+    let root : Body := .root "R" (.cons (.chunk [.scalar "k" 8]) (.cons (.payload .last) .nil))
+    let ch : Body := .derived "C" root [("k", 3)] [("k", 3)] (.cons (.chunk [.scalar "x" 8]) .nil)
+    vwfChain ch = true ∧
+    viewDecode { e := .little } ch [4, 7] = .ok (.obj [("x", .int 7)]) ∧
+    Pdlv.decodeFull { e := .little, mode := .ideal } ch [4, 7] = .err .constraintValue ∧
+    viewDecode { e := .little } ch [3, 7] = .ok (.obj [("x", .int 7)]) ∧
+    Pdlv.decodeFull { e := .little, mode := .ideal } ch [3, 7] = .ok (.obj [("x", .int 7)]) := by
+  refine ⟨by decide, by rfl, by rfl, by rfl, by rfl⟩
 
 end Cxx
 end Pdlv
